@@ -244,13 +244,15 @@ pub struct Tier {
     pub parties: usize,
     pub generated: u64,
     pub ill_typed: u64,
+    /// large programs (10^5..10^6 gates), few parties
+    pub big: u64,
 }
 
 pub fn tier(t: &str) -> Tier {
     if t == "thorough" {
-        Tier { parties: 48, generated: 40_000, ill_typed: 2_000 }
+        Tier { parties: 48, generated: 40_000, ill_typed: 2_000, big: 96 }
     } else {
-        Tier { parties: 12, generated: 1_500, ill_typed: 100 }
+        Tier { parties: 12, generated: 1_500, ill_typed: 100, big: 8 }
     }
 }
 
@@ -267,7 +269,7 @@ impl Plan {
         Ok(Plan { corpus, n_corpus: n, tier: tier(t) })
     }
     pub fn n_cases(&self) -> u64 {
-        self.n_corpus + self.tier.generated + self.tier.ill_typed
+        self.n_corpus + self.tier.generated + self.tier.ill_typed + self.tier.big
     }
 }
 
@@ -366,8 +368,10 @@ pub fn make_world(plan: &Plan, seed: u64, idx: u64) -> (World, String, Prng) {
         ("corpus", e.name.clone(), e.src.clone())
     } else if idx < plan.n_corpus + plan.tier.generated {
         ("generated", format!("gen-{idx}"), gen::program(&mut p))
-    } else {
+    } else if idx < plan.n_corpus + plan.tier.generated + plan.tier.ill_typed {
         ("ill_typed", format!("ill-{idx}"), gen::ill_typed(&mut p))
+    } else {
+        ("big", format!("big-{idx}"), gen::big_program(&mut p))
     };
     // analysis runs as a party too (fixed keys), so that even a seed-dependent front end cannot
     // make the case itself irreproducible
@@ -392,8 +396,23 @@ pub fn make_world(plan: &Plan, seed: u64, idx: u64) -> (World, String, Prng) {
         fns.push("main".into());
     }
     let light = src.len() > 6000;
-    let nparties = if light { plan.tier.parties.min(6) } else { plan.tier.parties };
+    let nparties = if family == "big" {
+        2
+    } else if light {
+        plan.tier.parties.min(6)
+    } else {
+        plan.tier.parties
+    };
     let mut parties: Vec<PartySpec> = (0..nparties).map(|_| draw_party(&mut p, &fns, consts.len(), light)).collect();
+    if family == "big" {
+        // every party compiles the large program repeatedly: from source twice, without gate
+        // de-duplication, and twice more from the program it type-checked once
+        for party in parties.iter_mut() {
+            let f = fns[0].clone();
+            let st = |register: bool, dedup: bool, mode: Mode| Step { fn_name: f.clone(), opts: Opts { register, dedup }, mode, perm: vec![], cap: 0, warm_src: None };
+            party.steps = vec![st(false, true, Mode::Src), st(false, true, Mode::Src), st(false, false, Mode::Src), st(true, true, Mode::Typed), st(false, true, Mode::Typed)];
+        }
+    }
     // process history: some parties compiled something else before
     let adv = adversarial_warm(&src);
     for party in parties.iter_mut() {
@@ -408,7 +427,9 @@ pub fn make_world(plan: &Plan, seed: u64, idx: u64) -> (World, String, Prng) {
         let o = *p.pick(&Opts::all());
         let target = simple_step(&fns[0], o);
         let mut warm = vec![warm_step(adv)];
-        if p.chance(1, 2) {
+        if family == "big" {
+            warm.push(warm_step(gen::big_program(&mut p)));
+        } else if p.chance(1, 2) {
             warm.push(warm_step(gen::program(&mut p)));
         }
         warm.push(target.clone());
